@@ -415,11 +415,20 @@ class SchemaGen:
                 coord = f"{root['name']}.{f['name']}"
                 b = base(f["type"])
                 if coord in res and res[coord]["k"] == "const" and b in self.iface_names + self.union_names and self.possible(b) and r.random() < 0.35:
-                    env["fieldTypeResolvers"][coord] = r.choice([{"k": "const", "name": r.choice(self.possible(b))}, {"k": "key", "key": "_typename"}])
+                    env["fieldTypeResolvers"][coord] = r.choice([{"k": "const", "name": self._rt_name(b)}, {"k": "key", "key": "_typename"}])
+                    env["fieldTypeResolvers"][coord]["obj"] = r.random() < 0.4
         for a in self.iface_names + self.union_names:
             if r.random() < 0.4 and self.possible(a):
-                env["typeResolvers"][a] = r.choice([{"k": "const", "name": r.choice(self.possible(a))}, {"k": "key", "key": "_typename"}])
+                env["typeResolvers"][a] = r.choice([{"k": "const", "name": self._rt_name(a)}, {"k": "key", "key": "_typename"}])
+                env["typeResolvers"][a]["obj"] = r.random() < 0.4      # hands back the schema's type OBJECT instead of its name
         return env
+
+    def _rt_name(self, abstract):
+        """runtime type a constant type resolver answers: usually a possible type, sometimes an object type that is NOT one"""
+        r = self.r
+        others = [o for o in self.obj_names if o not in self.possible(abstract)]
+        if others and r.random() < 0.15: return r.choice(others)
+        return r.choice(self.possible(abstract))
 
 # ---- document generation -------------------------------------------------------------------
 class DocGen:
